@@ -1068,10 +1068,12 @@ export class ProcGenWrapper {
       const tmplArgs = getTmplArgs(elem)
       if (!tmplArgs.dynEvListeners) tmplArgs.dynEvListeners = {}
       const dynEvListeners = tmplArgs.dynEvListeners
-      if (dynEvListeners[evName]) {
-        elem.removeListener(evName, dynEvListeners[evName]!, evOptions)
+      // (one entry per binding: `bind:tap` and `capture-bind:tap` / `catch:tap` are different bindings of one event)
+      const bindingKey = `${capture ? 'c' : ''}${mutated ? 'm' : ''}${final ? 'f' : ''}:${evName}`
+      if (dynEvListeners[bindingKey]) {
+        elem.removeListener(evName, dynEvListeners[bindingKey]!, evOptions)
       }
-      dynEvListeners[evName] = listener
+      dynEvListeners[bindingKey] = listener
     }
     if (handler) elem.addListener(evName, listener, evOptions)
   }
